@@ -46,6 +46,7 @@ type verdict struct {
 	ood    string
 	digest string
 	rules  []string // normalisation rules that were needed
+	more   []string // further atomic change classes of a differ-only violation (one key each)
 	kinds  kinds
 }
 
@@ -266,13 +267,22 @@ func zeroAttrLost(d *dialect, tc TypeCase, got string) (string, bool) {
 // schema leg
 // ---------------------------------------------------------------------------------------------------
 
+// changeNames flattens a change set into the sorted set of its atomic change classes.
 func changeNames(cs []schema.Change, depth int) []string {
 	var out []string
+	seen := map[string]bool{}
+	defer func() { sort.Strings(out) }()
 	for _, c := range cs {
 		n := strings.TrimPrefix(fmt.Sprintf("%T", c), "*schema.")
 		switch c := c.(type) {
 		case *schema.ModifyTable:
-			n += "[" + strings.Join(changeNames(c.Changes, depth+1), ",") + "]"
+			for _, x := range changeNames(c.Changes, depth+1) {
+				if !seen[x] {
+					seen[x] = true
+					out = append(out, x)
+				}
+			}
+			continue
 		case *schema.ModifyColumn:
 			n += "(" + c.Change.String() + ")"
 		case *schema.ModifyIndex:
@@ -286,9 +296,11 @@ func changeNames(cs []schema.Change, depth int) []string {
 		case *schema.DropAttr:
 			n += fmt.Sprintf("(%T)", c.A)
 		}
-		out = append(out, n)
+		if !seen[n] {
+			seen[n] = true
+			out = append(out, n)
+		}
 	}
-	sort.Strings(out)
 	return out
 }
 
@@ -331,6 +343,14 @@ func schemaLeg(d *dialect, cs *Case) verdict {
 	if err != nil {
 		v.key = fmt.Sprintf("C15|%s|eval-error|%s", d.name, errClass(err))
 		v.what = "EvalHCLBytes rejects the output of MarshalHCL: " + err.Error()
+		if cs.Type != nil && strings.Contains(err.Error(), "Not enough function arguments") {
+			for _, a := range cs.Type.Args {
+				if a.I != nil && *a.I == 0 {
+					v.key = fmt.Sprintf("C15|%s|zero-%s", d.name, a.K)
+					v.what = fmt.Sprintf("a zero %q parameter is lost by MarshalHCL and the result no longer evaluates: %s: %v", a.K, cs.Type, err)
+				}
+			}
+		}
 		return v
 	}
 	// (2) descriptors, before any differ touches the graphs.
@@ -385,9 +405,16 @@ func schemaLeg(d *dialect, cs *Case) verdict {
 	} else if len(ch2) > 0 {
 		n2 := changeNames(ch2, 0)
 		diffWhat += fmt.Sprintf(" SchemaDiff(s', s) = %v", n2)
-		if names == nil {
-			names = n2
+		for _, n := range n2 {
+			dup := false
+			for _, m := range names {
+				dup = dup || m == n
+			}
+			if !dup {
+				names = append(names, n)
+			}
 		}
+		sort.Strings(names)
 	}
 	switch {
 	case descKey != "":
@@ -399,8 +426,12 @@ func schemaLeg(d *dialect, cs *Case) verdict {
 			v.what += "; " + trunc(bytesWhat, 300)
 		}
 	case diffWhat != "":
-		v.key = fmt.Sprintf("C15|%s|diff|%s", d.name, strings.Join(names, "+"))
+		if len(names) == 0 {
+			names = []string{"error"}
+		}
+		v.key = fmt.Sprintf("C15|%s|diff|%s", d.name, names[0])
 		v.what = "descriptors agree but the differ reports changes: " + diffWhat
+		v.more = names[1:]
 	case bytesWhat != "":
 		v.key = fmt.Sprintf("C15|%s|bytes", d.name)
 		v.what = bytesWhat
@@ -471,22 +502,30 @@ func attrDelta(a, b string) string {
 		return m
 	}
 	ma, mb := split(a), split(b)
-	var out []string
+	names := map[string]bool{}
 	name := func(s string) string {
 		if i := strings.IndexByte(s, '{'); i >= 0 {
-			return s[:i]
+			s = s[:i]
+		}
+		s = shortType(s)
+		if s == "Collation" {
+			s = "Charset" // one class: charset/collation
 		}
 		return s
 	}
 	for p := range ma {
 		if !mb[p] {
-			out = append(out, "-"+name(p))
+			names[name(p)] = true
 		}
 	}
 	for p := range mb {
 		if !ma[p] {
-			out = append(out, "+"+name(p))
+			names[name(p)] = true
 		}
+	}
+	var out []string
+	for n := range names {
+		out = append(out, n)
 	}
 	sort.Strings(out)
 	return strings.Join(out, ",")
@@ -521,10 +560,15 @@ func typeSchema(d *dialect, tc TypeCase, v colVariant) *Sch {
 	cx := Col{Name: "cx", Type: tc}
 	v.Apply(&cx)
 	t := Tab{Name: "t0", Cols: []Col{{Name: "id", Type: idT}, cx}, PK: []Part{{Col: "id"}}}
-	if d.name == "mysql" && (cx.Charset != "" || cx.Collation != "") && v.Name == "charset=table" {
-		t.Charset, t.Collation = cx.Charset, cx.Collation
+	s := &Sch{Dialect: d.name, Name: d.schemaNm}
+	if d.name == "mysql" {
+		s.Charset, s.Collation = "utf8mb4", "utf8mb4_0900_ai_ci"
+		if v.Name == "charset=table" {
+			t.Charset, t.Collation = cx.Charset, cx.Collation
+		}
 	}
-	return &Sch{Dialect: d.name, Name: d.schemaNm, Tables: []Tab{t}}
+	s.Tables = []Tab{t}
+	return s
 }
 
 // compose applies features to a copy of the base; ok is false when they do not compose (a feature needs
@@ -654,6 +698,9 @@ func run(c *rt.Ctx) {
 		c.Eval(v.digest, true)
 		if v.key != "" {
 			c.Violation(v.key, v.what, cs, v.detail)
+			for _, m := range v.more {
+				c.Violation(fmt.Sprintf("C15|%s|diff|%s", cs.Dialect, m), v.what, cs, v.detail)
+			}
 			return
 		}
 		if c.WantSample() && cs.Leg == "schema" && i%97 == 0 {
